@@ -199,11 +199,11 @@ def virtFlatCover (H : Hier) (top : Ty) (cover : List Ty) (t : Ty) : Bool :=
 /-- diagnostic classification of the lookups on which the property fails (for known-finding
     classifiers); `holds` itself is `checkRun`, not this function -/
 def failingLookups (H : Hier) (S : Setup) (top : Ty) (kinds : List RegKind) :
-    Nat → List RefReg → List (Nat × List (Op × Ty) × List (Op × Ty)) →
+    Nat → List RefReg → List (Nat × List (Op × Ty) × List (Op × Ty)) → List (Nat × Op) →
     List Action → List (Option Answer) → List Json
-  | _, _, _, [], _ => []
-  | _, _, _, _, [] => []
-  | n, w, memo, a :: as, o :: os =>
+  | _, _, _, _, [], _ => []
+  | _, _, _, _, _, [] => []
+  | n, w, memo, lossy, a :: as, o :: os =>
     let here : List Json := match a, o with
       | .lookup i op t _, some ans =>
         (match w[i]? with
@@ -215,6 +215,7 @@ def failingLookups (H : Hier) (S : Setup) (top : Ty) (kinds : List RegKind) :
            let cls :=
              if kinds[i]? == some (.glommer true) && moduleOnly then "default-glommer-lacks-mutation-ops"
              else if stale == some true then "register-op-keeps-memo"
+             else if lossy.contains (i, op) then "reregistering-type-that-is-not-its-own-subclass-drops-subtypes"
              else if !(virtFlatCover H top (ρ.coverOf op) t) then "virtual-match-not-most-specific"
              else "other"
            [Json.mkObj [("index", n), ("reg", i), ("op", op), ("ty", t), ("class", cls),
@@ -225,7 +226,15 @@ def failingLookups (H : Hier) (S : Setup) (top : Ty) (kinds : List RegKind) :
       | .register i .. => memo.map (fun m => if m.1 == i then (m.1, [], []) else m)
       | .registerOp i .. => memo.map (fun m => if m.1 == i then (m.1, m.2.1, m.2.2 ++ m.2.1) else m)
       | .lookup i op t _ => memo.map (fun m => if m.1 == i then (m.1, (op, t) :: m.2.1, m.2.2) else m)
-    here ++ failingLookups H S top kinds (n + 1) (refStep H w a) memo' as os
+    -- a non-exact registration of a type that already covers and is not `issubclass` of itself
+    let lossy' := match a with
+      | .register i t false kw =>
+        (match w[i]? with
+         | some ρ => lossy ++ ((newOpMap H ρ.handlers ρ.autoOps t kw).filterMap (fun p =>
+             if (ρ.coverOf p.1).contains t && !(H.sub t t) then some (i, p.1) else none))
+         | none => lossy)
+      | _ => lossy
+    here ++ failingLookups H S top kinds (n + 1) (refStep H w a) memo' lossy' as os
 
 def run (j : Json) : Except String Json := do
   let (tab, uni) ← hierOfJson (← j.getObjVal? "hier")
@@ -326,7 +335,7 @@ def run (j : Json) : Except String Json := do
       ("trees", Json.arr (w.map (fun r => Json.arr (r.typeTree.map (fun p =>
         Json.arr #[Json.str p.1, forestToJson p.2])).toArray)).toArray)]),
     ("failing", Json.arr (failingLookups H S tab.top kinds 0 refW
-        ((List.range kinds.length).map (fun i => (i, [], []))) acts implAns).toArray),
+        ((List.range kinds.length).map (fun i => (i, [], []))) [] acts implAns).toArray),
     ("branch", "+".intercalate sorted),
     ("why", "; ".intercalate why)]
 
